@@ -48,6 +48,23 @@ structure Frame1 (w w' : World α) (c : Nat) : Prop where
   mem_other : ∀ b, b ≠ (w.hdr c).data → b ≠ (w.hdr c).inl → b < w.next → b % 2 = 1 ∨ b < 5 → w'.mem b = w.mem b
   owner_old : ∀ b, b < w.next → w'.owner b = w.owner b
   next_mono : w.next ≤ w'.next
+  data_new  : (w'.hdr c).data = (w.hdr c).data ∨ (w'.hdr c).data = (w.hdr c).inl ∨ w.next ≤ (w'.hdr c).data
+
+theorem Frame1.trans {a b d : World α} {c : Nat} (h1 : Frame1 a b c) (h2 : Frame1 b d c) : Frame1 a d c := by
+  refine ⟨fun x hx => (h2.hdr_other x hx).trans (h1.hdr_other x hx), h2.hdr_N.trans h1.hdr_N, h2.hdr_inl.trans h1.hdr_inl, ?_,
+          fun x hx => (h2.owner_old x (Nat.lt_of_lt_of_le hx h1.next_mono)).trans (h1.owner_old x hx),
+          Nat.le_trans h1.next_mono h2.next_mono, ?_⟩
+  · intro x hx1 hx2 hx3 hx4
+    rw [h2.mem_other x ?_ (by rw [h1.hdr_inl]; exact hx2) (Nat.lt_of_lt_of_le hx3 h1.next_mono) hx4]
+    · exact h1.mem_other x hx1 hx2 hx3 hx4
+    · rcases h1.data_new with h | h | h
+      · rw [h]; exact hx1
+      · rw [h]; exact hx2
+      · omega
+  · rcases h2.data_new with h | h | h
+    · rw [h]; exact h1.data_new
+    · rw [h, h1.hdr_inl]; exact Or.inr (Or.inl rfl)
+    · exact Or.inr (Or.inr (Nat.le_trans h1.next_mono h))
 
 theorem Holds.unique {w : World α} {c : Nat} {xs ys : List (Val α)} (h1 : Holds w c xs) (h2 : Holds w c ys) : xs = ys := by
   apply List.ext_getElem (by rw [h1.1, h2.1])
@@ -56,15 +73,6 @@ theorem Holds.unique {w : World α} {c : Nat} {xs ys : List (Val α)} (h1 : Hold
   have b := h2.2 i hi2
   rw [a] at b
   injection b with b; injection b with b
-
-theorem isObj_of_eq {w w' : World α} {b i b' i' : Nat} (h : (w'.mem b')[i']? = (w.mem b)[i]?) (ho : IsObj w b i) : IsObj w' b' i' := by
-  obtain ⟨v, hv⟩ := ho; exact ⟨v, by rw [h]; exact hv⟩
-
-theorem isRaw_of_eq {w w' : World α} {b i b' i' : Nat} (h : (w'.mem b')[i']? = (w.mem b)[i]?) (ho : IsRaw w b i) : IsRaw w' b' i' := by
-  unfold IsRaw at *; rw [h]; exact ho
-
-theorem not_obj_and_raw {w : World α} {b i : Nat} (h1 : IsObj w b i) (h2 : IsRaw w b i) : False := by
-  obtain ⟨v, hv⟩ := h1; rw [IsRaw, hv] at h2; cases h2
 
 /-- control state without the headers, tolerant of temporaries having been created -/
 structure Ctl0 (w w' : World α) : Prop where
